@@ -1667,9 +1667,9 @@ def _havoc_target(ex, st, env, m):
         st.trace.append(("mutate", o))
     elif type(o).__name__ == "SSet":
         o.has = z3.Array(fresh_name("hvset"), z3sort(o.esort), z3.BoolSort())
-    elif isinstance(o, (PDict, PList)) and isinstance(env[m], Ref):
-        # a concrete dict / list handed to a callee that may fill it: afterwards an abstract collection (contents unknown)
-        st.heap[env[m].addr] = Opaque("PyDict" if isinstance(o, PDict) else "PyList")
+    elif (isinstance(o, (PDict, PList)) or type(o).__name__ == "PSet") and isinstance(env[m], Ref):
+        # a concrete dict / list / set handed to a callee that may fill it: afterwards an abstract collection (contents unknown)
+        st.heap[env[m].addr] = Opaque("PyDict" if isinstance(o, PDict) else ("PyList" if isinstance(o, PList) else "PySet"))
     else:
         raise Unsupported(f"modifies {m}: unsupported target {o!r}")
 
